@@ -154,6 +154,9 @@ struct Obj {
   Node *body;
   Obj *locals;
   Obj *va_area;
+  int va_gp;          // registers and stack bytes taken by named parameters
+  int va_fp;
+  int va_stack;
   Obj *alloca_bottom;
   int stack_size;
 
